@@ -23,6 +23,15 @@ pub enum Case {
     },
     /// exactly four bytes, default context (enumerated sub-domain: does the fourth byte matter?)
     Quad { b0: u8, b1: u8, b2: u8, b3: u8 },
+    /// the same input probed `n` times in a row on one fresh context
+    Repeat {
+        b0: u8,
+        b1: u8,
+        b2: u8,
+        #[serde(with = "hexv")]
+        tail: Vec<u8>,
+        n: u32,
+    },
     /// fewer than three bytes
     Short {
         #[serde(with = "hexv")]
@@ -58,7 +67,7 @@ impl Prop for C17 {
         "C17"
     }
     fn rule(&self) -> String {
-        "enumerated: all 2^24 three-byte prefixes on a default context (both tiers). generated: random prefixes (b1 = 0x0F half of the time) with random continuations of 0-600 bytes on random contexts after random histories, compared with the prefix alone; complete reference-encoded frames whose SMBus command code is replaced (PEC repaired); complete frames arriving shifted (1-3 leading bytes stripped, 1-2 bytes in front); enumerated four-byte inputs; inputs of length 0-2. oracle: b1 = 0x0F => Ok(b2 + 4), else Err with message type Invalid; equal results for equal prefixes regardless of tail and context; length < 3 => Err (no panic, no Ok). non-trivial = b1 = 0x0F (the accepting branch) or a non-empty tail / short input; enumerated cases are distinct by construction, generated ones by hash".into()
+        "enumerated: all 2^24 three-byte prefixes on a default context (both tiers). generated: random prefixes (b1 = 0x0F half of the time) with random continuations of 0-600 bytes on random contexts after random histories, compared with the prefix alone; complete reference-encoded frames whose SMBus command code is replaced (PEC repaired); complete frames arriving shifted (1-3 leading bytes stripped, 1-2 bytes in front); enumerated four-byte inputs; the same input probed 2-1100 times in a row on one context (enumerated: 16 headers x 600 probes, two headers x 66 000 probes); inputs of length 0-2. oracle: b1 = 0x0F => Ok(b2 + 4), else Err with message type Invalid; equal results for equal prefixes regardless of tail and context; length < 3 => Err (no panic, no Ok). non-trivial = b1 = 0x0F (the accepting branch) or a non-empty tail / short input; enumerated cases are distinct by construction, generated ones by hash".into()
     }
     fn assumptions(&self) -> Vec<String> {
         vec!["the error's DecodeError payload is not demanded, only the message type Invalid".into()]
@@ -87,6 +96,8 @@ impl Prop for C17 {
                 Case::Tail { b0: q[0], b1: q[1], b2: q[2], tail: q[3..].to_vec(), cfg, hist: Vec::new() }
             }),
             1 => (proptest::collection::vec(prop_oneof![Just(0x0Fu8), any::<u8>()], 0..=2), gen::ctx_cfg()).prop_map(|(bytes, cfg)| Case::Short { bytes, cfg }),
+            1 => (any::<u8>(), prop_oneof![4 => Just(0x0Fu8), 1 => any::<u8>()], prop_oneof![2 => any::<u8>(), 1 => Just(0xFFu8), 1 => Just(0x00u8)], gen::bytes_upto(12), prop_oneof![6 => 2u32..=40, 3 => 250u32..=530, 1 => 1000u32..=1100])
+                .prop_map(|(b0, b1, b2, tail, n)| Case::Repeat { b0, b1, b2, tail, n }),
         ]
         .boxed()
     }
@@ -97,7 +108,7 @@ impl Prop for C17 {
         }
     }
     fn required_labels(&self) -> Vec<&'static str> {
-        vec!["prefix_0f", "prefix_other", "quad", "tail", "short0", "short1", "short2"]
+        vec!["prefix_0f", "prefix_other", "quad", "tail", "short0", "short1", "short2", "repeated_probe", "repeated_probe_256_or_more"]
     }
     fn enumerate(&self, tier: Tier, shard: usize, nshards: usize, f: &mut dyn FnMut(Case)) {
         for b0 in 0u32..256 {
@@ -109,6 +120,17 @@ impl Prop for C17 {
                     f(Case::Prefix { b0: b0 as u8, b1: b1 as u8, b2: b2 as u8 });
                 }
             }
+        }
+        // the same header probed over and over on one context (both tiers): 600 times for
+        // 16 headers, 66 000 times for two
+        if shard == 0 {
+            for b1 in [0x0Fu8, 0x0E] {
+                for b2 in [0x00u8, 0x08, 0x7F, 0x80, 0xFB, 0xFC, 0xFE, 0xFF] {
+                    f(Case::Repeat { b0: 0x46, b1, b2, tail: vec![0x69, 0x01], n: 600 });
+                }
+            }
+            f(Case::Repeat { b0: 0x46, b1: 0x0F, b2: 0x08, tail: vec![], n: 66_000 });
+            f(Case::Repeat { b0: 0x46, b1: 0x0F, b2: 0xFF, tail: vec![0x69], n: 66_000 });
         }
         // four-byte inputs: quick = 6 leading bytes x all b1, b2 x 16 structural fourth bytes;
         // thorough = every leading byte x all b1, b2 x the 16 structural fourth bytes and,
@@ -182,6 +204,24 @@ impl Prop for C17 {
                 };
                 if !same && r.failures.is_empty() {
                     r.fail("C17:depends_on_tail_or_context".to_string(), format!("prefix {:02x}{:02x}{:02x} alone gives {:?}; followed by {} bytes on context {:?} it gives {:?}", b0, b1, b2, alone, tail.len(), cfg, with_tail));
+                }
+            }
+            Case::Repeat { b0, b1, b2, tail, n } => {
+                r.nontrivial = true;
+                r.label("repeated_probe");
+                if *n >= 256 {
+                    r.label("repeated_probe_256_or_more");
+                }
+                let store = CtxStore::new(&CtxCfg::default_test());
+                let ctx = store.ctx();
+                let mut full = vec![*b0, *b1, *b2];
+                full.extend_from_slice(tail);
+                for i in 0..(*n).min(100_000) {
+                    let got = sut::get_length(&ctx, &full);
+                    check(&mut r, &got, *b1, *b2, &format!("probe number {} of the same {}-byte input {} on one context", i + 1, full.len(), hex(&full)));
+                    if !r.failures.is_empty() {
+                        break;
+                    }
                 }
             }
             Case::Short { bytes, cfg } => {
